@@ -110,6 +110,9 @@ pub struct Run {
     /// another property does not stop the history, it is kept in `other`.
     pub focus: Option<&'static str>,
     pub other: Option<Violation>,
+    /// a second property that a panic inside a library call contradicts in this world (e.g. an
+    /// arithmetic overflow in the semaphore's permit accounting is an over-grant: C05)
+    pub panic_also: Option<&'static str>,
     step_now: usize,
 }
 
@@ -129,6 +132,7 @@ impl Run {
             excluded_known: 0,
             focus: None,
             other: None,
+            panic_also: None,
             step_now: 0,
         }
     }
@@ -193,7 +197,10 @@ impl Run {
         match lib_call(f) {
             Ok(v) => Some(v),
             Err(msg) => {
-                self.violate("C01", "panic", format!("{} panicked: {}", what, msg));
+                match self.panic_also {
+                    Some(also) if msg.contains("overflow") => self.violate2("C01", also, "panic", format!("{} panicked: {}", what, msg)),
+                    _ => self.violate("C01", "panic", format!("{} panicked: {}", what, msg)),
+                }
                 None
             }
         }
